@@ -4,10 +4,10 @@ package main
 // absence of shared mutable state and of nondeterminism sources (C13, C01).
 
 import (
-	"os"
 	"fmt"
 	"go/token"
 	"go/types"
+	"os"
 	"sort"
 	"strings"
 
@@ -735,6 +735,11 @@ func ruleNonDet(c *Ctx) {
 // ---------------------------------------------------------------- R-OSAP-RANGE
 
 func ruleOsapRange(c *Ctx) {
+	edgesName, startName := c.osapFieldNames()
+	if edgesName == "" || startName == "" {
+		c.fail("osap:fields", token.NoPos, "unresolved anchor: the edge table / covered-range start of the optimizing parser were not found")
+		return
+	}
 	// the parser whose Parse calls an edge computation that calls suffix.Segments
 	n := 0
 	for _, p := range c.parsers() {
@@ -772,9 +777,9 @@ func ruleOsapRange(c *Ctx) {
 						switch {
 						case strings.HasSuffix(base, ".W") && co == -1:
 							hasW = true
-						case strings.HasSuffix(base, ".start") && co == 1:
+						case strings.HasSuffix(base, "."+startName) && co == 1:
 							hasStart = true
-						case strings.HasPrefix(base, "len(") && strings.Contains(base, ".edges") && co == 1:
+						case strings.HasPrefix(base, "len(") && strings.Contains(base, "."+edgesName) && co == 1:
 							hasLen = true
 						}
 					}
@@ -804,7 +809,7 @@ func ruleOsapRange(c *Ctx) {
 							continue
 						}
 						switch f.Name() {
-						case "start":
+						case startName:
 							startV = cfi.lin(st.Val)
 							haveStart = true
 						}
@@ -828,7 +833,7 @@ func ruleOsapRange(c *Ctx) {
 						if !isSt {
 							continue
 						}
-						if f := fieldOfAddr(st.Addr); f == nil || f.Name() != "edges" {
+						if f := fieldOfAddr(st.Addr); f == nil || f.Name() != edgesName {
 							continue
 						}
 						if _, isIA := st.Addr.(*ssa.IndexAddr); isIA {
@@ -839,7 +844,7 @@ func ruleOsapRange(c *Ctx) {
 						lv := cfi.lenOf(st.Val).clone()
 						for a, co := range lv.t {
 							if ld, isLd := cfi.loadAtoms[a].(*ssa.UnOp); isLd {
-								if f := fieldOfAddr(ld.X); f != nil && f.Name() == "start" {
+								if f := fieldOfAddr(ld.X); f != nil && f.Name() == startName {
 									if us := cfi.uniqueReachingStore(ld); us != nil {
 										delete(lv.t, a)
 										lv = lv.addk(cfi.lin(us.Val), co)
@@ -1009,7 +1014,6 @@ func (c *Ctx) fromBytes(v ssa.Value, depth int) bool {
 	}
 	return false
 }
-
 
 // isIntKey: the dotted field path k inside struct type T names an integer field.
 func (c *Ctx) isIntKey(T types.Type, k string) bool {
